@@ -849,8 +849,9 @@ func runScenario(sc *Scenario) *Outcome {
 		}
 	}
 	var hook func()
-	shortcutExpected := rc != nil && sc.Peer.Local && !rc.LocalAuth
-	if sc.RealmClosed && shortcutExpected && realmInConfig {
+	if sc.RealmClosed && realmInConfig {
+		// authClient asks IsLocal() first: the realm goes away right then
+		// (for challenge methods again, harmlessly, when the CHALLENGE arrives)
 		hook = removeRealm
 	}
 	a := r.attach(sc.Peer.Local, toGoDict(sc.Peer.Transport), hook)
